@@ -3,6 +3,8 @@ pub mod common;
 pub mod c01;
 pub mod c05;
 pub mod c07;
+pub mod c08;
+pub mod c09;
 pub mod c10;
 
 use crate::util::Ctx;
@@ -12,6 +14,8 @@ pub fn dispatch(ctx: &mut Ctx) -> bool {
         "C01" => c01::run(ctx),
         "C05" => c05::run(ctx),
         "C07" => c07::run(ctx),
+        "C08" => c08::run(ctx),
+        "C09" => c09::run(ctx),
         "C10" => c10::run(ctx),
         _ => return false,
     }
